@@ -92,7 +92,9 @@ def build(ctx):
                 templates.append((pth[:k_], 0, pth[k_ + 1:], al))                    # one character removed
         seen_t = set()
         templates = [t_ for t_ in templates if not (t_[:3] in seen_t or seen_t.add(t_[:3])) and len(t_[0]) + t_[1] + len(t_[2]) <= 24]
-        if not thorough:
+        if thorough:
+            templates = templates[::2] if len(templates) > 120 else templates
+        else:
             templates = templates[::3] if len(templates) > 60 else templates[::2]
             if any("#" in n_ for n_ in root + sub):
                 templates = templates[::2]
@@ -117,7 +119,7 @@ def build(ctx):
                 # index does not finish; there the byte is enumerated over the table alphabet plus digits and foreign chars
                 numeric = any("#" in n_ for n_ in root + sub)
                 if sym0 and hashed and loc:
-                    variants = [(pre0 + ch, 0) for ch in (alphabet if thorough else [alphabet[ti % (len(alphabet) - 3)], "q", "0"])]
+                    variants = [(pre0 + ch, 0) for ch in (alphabet[ti % 2::2] + ["q"] if thorough else [alphabet[ti % (len(alphabet) - 3)], "q", "0"])]
                 elif sym0 and subidx >= 0 and "/" not in pre0:
                     # byte inside the ROOT component of a table with a sub-tree: symbolic, it may complete the sub-tree
                     # port's name and drag the whole second level into every path (260..450 s); enumerate it instead
